@@ -80,7 +80,6 @@ def install():
     _expect(agg, "inevalfilelock", "lock")
     _expect(agg, "Lock", "callable")
     _expect(agg, "os", "module")
-    _expect(agg, "atexit", "module")
     _expect(agg, "Path", "callable")
     _expect(ev, "perf_counter", "callable")
     _expect(tm, "time", "module")
@@ -94,7 +93,8 @@ def install():
     agg.open = seams.sim_open
     st.open = seams.sim_open
     agg.os = seams.OsProxy()
-    agg.atexit = seams.AtexitProxy()
+    if hasattr(agg, "atexit"):  # a refactoring may have replaced atexit by other clean-up means
+        agg.atexit = seams.AtexitProxy()
     agg.Path = seams.SimPath
     if hasattr(st, "Path"):
         st.Path = seams.SimPath
